@@ -6,6 +6,7 @@ import (
 	"math/rand"
 	"runtime"
 	"strings"
+	"sync"
 
 	"bwverif/bq"
 	"bwverif/cv"
@@ -117,8 +118,15 @@ func c14Run(r *rt.Rec, rng *rand.Rand, n int) {
 				cs = append(cs, extra)
 			}
 		}
+		// a clause whose bound takes its limits from time bindings of earlier
+		// clauses: its meaning depends on what precedes it, so such patterns are
+		// never permuted (all other variants apply)
+		boundAlias := false
+		if rng.Intn(5) == 0 {
+			cs, boundAlias = gen.AddBoundAlias(rng, cs)
+		}
 		optional := false
-		if rng.Intn(4) == 0 && len(cs) > 1 {
+		if !boundAlias && rng.Intn(4) == 0 && len(cs) > 1 {
 			c := cs[len(cs)-1]
 			// extraction bindings of an optional clause must be fresh: only use
 			// it when it shares position bindings only
@@ -228,7 +236,8 @@ func c14Run(r *rt.Rec, rng *rand.Rand, n int) {
 			same(fmt.Sprintf("partition-%d-graphs", parts), pq.Text(), t, err, outs)
 		}
 		// --- clause permutations (no OPTIONAL)
-		if !optional && len(cs) >= 2 && len(cs) <= 4 {
+		var permuted []*bq.Query
+		if !optional && !boundAlias && len(cs) >= 2 && len(cs) <= 4 {
 			for _, perm := range permutations(len(cs))[1:] {
 				pcs := make([]bq.Clause, len(cs))
 				for k, j := range perm {
@@ -236,6 +245,8 @@ func c14Run(r *rt.Rec, rng *rand.Rand, n int) {
 				}
 				vq := *base
 				vq.Clauses = pcs
+				vqc := vq
+				permuted = append(permuted, &vqc)
 				if t, err, pan := execQ(ctx, r, st, vq.Text(), 0); !pan {
 					r.Eval(1)
 					nvar++
@@ -291,8 +302,35 @@ func c14Run(r *rt.Rec, rng *rand.Rand, n int) {
 				oq.OrderBy = append(oq.OrderBy, bq.Order{Binding: b, Dir: []string{"", "DESC"}[rng.Intn(2)]})
 			}
 			var first []string
+			type run struct {
+				name  string
+				st    storage.Store
+				q     *bq.Query
+				procs int
+			}
+			var runs []run
 			for k := 0; k < 20; k++ {
-				t, err, pan := execQ(ctx, r, st, oq.Text(), []int{0, 1, 64}[k%3])
+				runs = append(runs, run{"repeat", st, &oq, 0})
+			}
+			// the same total order through every other plan: clause orders, the
+			// partitioned data, other processor counts
+			for _, pqr := range permuted {
+				vq := *pqr
+				vq.OrderBy = oq.OrderBy
+				runs = append(runs, run{"clause-order", st, &vq, 0})
+			}
+			ppq := pq
+			ppq.OrderBy = oq.OrderBy
+			runs = append(runs, run{"partition", pst, &ppq, 0}, run{"GOMAXPROCS", st, &oq, 1}, run{"GOMAXPROCS", st, &oq, 16}, run{"GOMAXPROCS", pst, &ppq, 16})
+			for k, rn := range runs {
+				old := 0
+				if rn.procs > 0 {
+					old = runtime.GOMAXPROCS(rn.procs)
+				}
+				t, err, pan := execQ(ctx, r, rn.st, rn.q.Text(), []int{0, 1, 64}[k%3])
+				if rn.procs > 0 {
+					runtime.GOMAXPROCS(old)
+				}
 				if pan || err != nil || t == nil {
 					break
 				}
@@ -305,11 +343,13 @@ func c14Run(r *rt.Rec, rng *rand.Rand, n int) {
 					continue
 				}
 				if strings.Join(seq, "\x1c") != strings.Join(first, "\x1c") {
-					r.Violation("total-order-unstable", "a query whose ORDER BY lists every output binding returned two different row sequences", w("order-by-all", oq.Text()))
+					ww := w("order-by-all/"+rn.name, rn.q.Text())
+					ww["first_sequence"], ww["this_sequence"] = showAll(first, 8), showAll(seq, 8)
+					r.Violation("total-order-unstable/"+rn.name, "a query whose ORDER BY lists every output binding returned two different row sequences", ww)
 					break
 				}
 			}
-			r.Eval(20)
+			r.Eval(len(runs))
 		}
 		if len(rows0) >= 2 {
 			r.Nontrivial(base.Text())
@@ -321,21 +361,159 @@ func c14Run(r *rt.Rec, rng *rand.Rand, n int) {
 	}
 }
 
+// c14Concurrent: statements of many kinds (HAVING with different constants of
+// one kind, ORDER BY, GROUP BY, OPTIONAL, bounds, generated base queries) are
+// first executed one after the other on one store, then all at once from one
+// goroutine each, several times over: every concurrent result must be the
+// sequential one (multiset of canonical rows; identical sequence for the
+// ORDER BY statements whose keys determine the order). Nothing writes.
+func c14Concurrent(r *rt.Rec, rng *rand.Rand, n, reps int) {
+	ctx := context.Background()
+	shapes := gen.FriendlyShapes()
+	for i := 0; i < n; i++ {
+		data := gen.DenseDataSet(rng, 1, 14+rng.Intn(12), true)
+		all := data["?g1"]
+		st := bq.NewStore(ctx, data)
+		type stm struct {
+			text    string
+			outs    []string
+			ordered bool
+			rows    []string
+			err     bool
+		}
+		var stms []*stm
+		add := func(text string, outs []string, ordered bool) {
+			stms = append(stms, &stm{text: text, outs: outs, ordered: ordered})
+		}
+		ints := []string{"-7", "0", "5", "12", "9007199254740992", "-9223372036854775808"}
+		for k := 0; k < 3; k++ {
+			c := ints[rng.Intn(len(ints))]
+			op := []string{"<", ">", "="}[rng.Intn(3)]
+			add(fmt.Sprintf(`SELECT ?s, ?v FROM ?g1 WHERE { ?s "n"@[] ?v } HAVING ?v %s "%s"^^type:int64;`, op, c), []string{"?s", "?v"}, false)
+		}
+		add(fmt.Sprintf(`SELECT ?s, ?v FROM ?g1 WHERE { ?s "f"@[] ?v } HAVING ?v %s "%s"^^type:float64;`, []string{"<", ">"}[rng.Intn(2)], []string{"0.25", "1.0000001", "-2.5"}[rng.Intn(3)]), []string{"?s", "?v"}, false)
+		add(fmt.Sprintf(`SELECT ?s, ?t FROM ?g1 WHERE { ?s "p"@[?t] ?o } HAVING ?t %s %s;`, []string{"<", ">", "="}[rng.Intn(3)], []string{"2015-01-01T00:00:00Z", "2016-06-15T12:30:00Z", "2016-06-15T13:30:00+01:00"}[rng.Intn(3)]), []string{"?s", "?t"}, false)
+		add(fmt.Sprintf(`SELECT ?s, ?o FROM ?g1 WHERE { ?s ?p ?o } HAVING ?o = %s;`, []string{"/u<a>", "/u<b>", `"abc"^^type:text`, `"5"^^type:int64`}[rng.Intn(4)]), []string{"?s", "?o"}, false)
+		add(fmt.Sprintf(`SELECT ?s, ?o FROM ?g1 WHERE { ?s ?p ?o } HAVING (?s = %s) OR ?o = %s;`, []string{"/u<a>", "/u<c>"}[rng.Intn(2)], []string{"/u<b>", `"abc"^^type:text`}[rng.Intn(2)]), []string{"?s", "?o"}, false)
+		add(`SELECT ?s, ?v FROM ?g1 WHERE { ?s "n"@[] ?v } ORDER BY ?v, ?s;`, []string{"?s", "?v"}, true)
+		add(`SELECT ?s, ?v FROM ?g1 WHERE { ?s "n"@[] ?v } ORDER BY ?v DESC, ?s DESC;`, []string{"?s", "?v"}, true)
+		add(`SELECT ?s, ?v, ?w FROM ?g1 WHERE { ?s "n"@[] ?w . ?s "n"@[] ?v } ORDER BY ?v, ?w DESC, ?s;`, []string{"?s", "?v", "?w"}, true)
+		add(`SELECT ?s, ?v, ?s2 FROM ?g1 WHERE { ?s "n"@[] ?v . ?s2 "n"@[] ?v } ORDER BY ?v DESC, ?s, ?s2;`, []string{"?s", "?v", "?s2"}, true)
+		add(`SELECT ?s, ?t FROM ?g1 WHERE { ?s "p"@[?t] ?o } ORDER BY ?t DESC, ?s;`, []string{"?s", "?t"}, false)
+		add(`SELECT ?s, count(?o) AS ?n, count(distinct ?p) AS ?m FROM ?g1 WHERE { ?s ?p ?o } GROUP BY ?s;`, []string{"?s", "?n", "?m"}, false)
+		add(`SELECT ?s, sum(?v) AS ?t FROM ?g1 WHERE { ?s "n"@[] ?v } GROUP BY ?s ORDER BY ?s;`, []string{"?s", "?t"}, true)
+		add(`SELECT ?s, ?o, ?x FROM ?g1 WHERE { ?s "p"@[] ?o . OPTIONAL { ?o "q"@[] ?x } };`, []string{"?s", "?o", "?x"}, false)
+		add(`SELECT ?s, ?t, ?o2 FROM ?g1 WHERE { ?s "p"@[?t] ?o . ?s "q"@[?t,] ?o2 };`, []string{"?s", "?t", "?o2"}, false)
+		add(fmt.Sprintf(`SELECT ?s, ?p, ?o FROM ?g1 WHERE { ?s ?p ?o } BEFORE %s;`, []string{"2015-06-01T00:00:00Z", "2017-01-01T00:00:00Z"}[rng.Intn(2)]), []string{"?s", "?p", "?o"}, false)
+		for k := 0; k < 3; k++ {
+			cs := gen.RandomPattern(rng, shapes, all, 2+rng.Intn(2))
+			q := gen.SelectAll(cs, []string{"?g1"})
+			if len(q.Vars) == 0 {
+				continue
+			}
+			lo, hi := q.Bounds()
+			if _, ok := bq.SolveMax(cs, q.Graphs, data, lo, hi, 500); !ok {
+				continue
+			}
+			add(q.Text(), q.OutBindings(), false)
+		}
+		seqOf := func(t *table.Table, outs []string, ordered bool) []string {
+			if t == nil {
+				return nil
+			}
+			if ordered {
+				var seq []string
+				for _, row := range t.Rows() {
+					seq = append(seq, cv.Row(row, outs))
+				}
+				return seq
+			}
+			rows := bq.TableRows(t, outs)
+			sortStrings(rows)
+			return rows
+		}
+		// sequential reference run
+		for _, s := range stms {
+			t, err, pan := execQ(ctx, r, st, s.text, 0)
+			if pan {
+				return
+			}
+			s.err = err != nil
+			s.rows = seqOf(t, s.outs, s.ordered)
+		}
+		r.Begin(fmt.Sprintf("concurrent execution of %d statements x %d, e.g. %s", len(stms), reps, stms[0].text))
+		var wg sync.WaitGroup
+		var mu sync.Mutex
+		type bad struct {
+			s    *stm
+			got  []string
+			err  error
+			what string
+		}
+		var bads []bad
+		start := make(chan struct{})
+		for _, s := range stms {
+			wg.Add(1)
+			go func(s *stm) {
+				defer wg.Done()
+				<-start
+				for k := 0; k < reps; k++ {
+					t, _, err := bq.Run(ctx, st, s.text, []int{0, 1, 16}[k%3], 10)
+					got := []string(nil)
+					if err == nil {
+						got = seqOf(t, s.outs, s.ordered)
+					}
+					if (err != nil) != s.err || (err == nil && strings.Join(got, "\x1c") != strings.Join(s.rows, "\x1c")) {
+						mu.Lock()
+						bads = append(bads, bad{s, got, err, ""})
+						mu.Unlock()
+						return
+					}
+				}
+			}(s)
+		}
+		close(start)
+		wg.Wait()
+		r.Eval(len(stms) * reps)
+		r.Count("concurrent_statement_executions", len(stms)*reps)
+		for _, b := range bads {
+			cls := strings.ToLower(firstWordAfter(b.s.text))
+			r.Violation("concurrent-result-differs/"+cls, fmt.Sprintf("a statement executed while %d other read-only statements were running returned another result than when executed alone (%d rows instead of %d, err=%v)", len(stms)-1, len(b.got), len(b.s.rows), b.err),
+				map[string]interface{}{"statement": b.s.text, "alone": showAll(b.s.rows, 8), "concurrently": showAll(b.got, 8), "others": stms[0].text, "data": bq.DataStrings(data)})
+		}
+		if len(stms) >= 10 {
+			r.Nontrivial(fmt.Sprintf("concurrent|%d|%s", len(stms), stms[0].text+stms[3].text))
+		}
+	}
+}
+
+// firstWordAfter names the feature of a statement for violation keys.
+func firstWordAfter(text string) string {
+	for _, kw := range []string{"HAVING", "ORDER BY", "GROUP BY", "OPTIONAL", "BEFORE", "@[?t,]"} {
+		if strings.Contains(text, kw) {
+			return strings.ReplaceAll(kw, " ", "-")
+		}
+	}
+	return "plain"
+}
+
 func init() {
 	register(&rt.Check{
 		ID:    "C14",
 		Level: "exploration",
-		Rule: "base SELECT queries without LIMIT or FILTER from the C03/C10/C11 generators (2-4 clause patterns with shared bindings, extractions, an OPTIONAL clause, GROUP BY with count) over sparse and dense data; variants: 1 repeated execution, chanSize 1/7/64, GOMAXPROCS 1/2/16, consistent renaming of every binding, the data partitioned at random over 2-3 graphs listed in FROM, every permutation of <=4 non-OPTIONAL clauses, a random superset of the data (monotonicity; no OPTIONAL/aggregate), and 20 executions of the query with ORDER BY over all output bindings; the parallel variants also under -race; " +
+		Rule: "base SELECT queries without LIMIT or FILTER from the C03/C10/C11 generators (2-4 clause patterns with shared bindings, extractions, an OPTIONAL clause, GROUP BY with count) over sparse and dense data; variants: 1 repeated execution, chanSize 1/7/64, GOMAXPROCS 1/2/16, consistent renaming of every binding, the data partitioned at random over 2-3 graphs listed in FROM, every permutation of <=4 non-OPTIONAL clauses, a random superset of the data (monotonicity; no OPTIONAL/aggregate), and the query with ORDER BY over all output bindings executed 20 times and through every other plan (clause orders, partitioned data, GOMAXPROCS 1/16); patterns with a bound whose limits are time bindings of earlier clauses (never permuted); ~17 read-only statements (HAVING with different constants of one kind, ORDER BY, GROUP BY, OPTIONAL, bounds, generated patterns) executed alone and then all at once, 12 times each, on one store; the parallel variants also under -race; " +
 			"oracle: purely metamorphic - equal multisets of canonical rows (base subset of superset; identical sequence for the total order); non-trivial = base result has >=2 rows; distinct by statement text + data",
 		Assume: []string{"two cells are the same value when their accessor-based canonical forms agree (zone ignored)", "a total order is obtained by listing every output binding in ORDER BY; ties between rows that are equal as values but printed differently are compared canonically"},
 		Floor:  100,
 		Phases: func(tier string, seed int64) []rt.Phase {
-			n, rc := 960, 64
+			n, rc, cn := 960, 64, 64
 			if tier == "thorough" {
-				n, rc = 9600, 640
+				n, rc, cn = 9600, 640, 640
 			}
 			return []rt.Phase{
 				{Name: "variants", N: 32, Run: func(i int, r *rt.Rec) { c14Run(r, gen.Rng(seed, "c14", i), n/32) }},
+				{Name: "concurrent", N: 16, Run: func(i int, r *rt.Rec) { c14Concurrent(r, gen.Rng(seed, "c14c", i), cn/16, 12) }},
+				{Name: "concurrent-race", N: 16, Race: true, Run: func(i int, r *rt.Rec) { c14Concurrent(r, gen.Rng(seed, "c14cr", i), cn/32, 4) }},
 				{Name: "variants-race", N: 16, Race: true, Run: func(i int, r *rt.Rec) { c14Run(r, gen.Rng(seed, "c14r", i), rc/16) }},
 			}
 		},
